@@ -33,7 +33,7 @@ fn main() {
 
     let opts = Opts { prop: prop.clone(), tier, seed, jobs, scale, time_cap: Duration::from_secs(cap_s) };
     let t0 = Instant::now();
-    let (stats, floors, rule): (Stats, Vec<String>, String) = match fgv::dispatch::run(&opts) {
+    let (mut stats, floors, rule): (Stats, Vec<String>, String) = match fgv::dispatch::run(&opts) {
         Some(x) => x,
         None => {
             // property has nothing to run in this configuration
@@ -45,6 +45,10 @@ fn main() {
         }
     };
     let wall = t0.elapsed().as_secs_f64();
+    let helper_passes = fgv::apis::OUTCOME_HELPER_PASSES.load(std::sync::atomic::Ordering::Relaxed);
+    if helper_passes > 0 {
+        stats.add("outcomes_carried_through_helper_methods", helper_passes);
+    }
     let exhaustive = stats.counters.get("exhaustive.complete").copied().unwrap_or(0) == 1;
     let part = J::obj(vec![
         ("config", J::s(cfg)),
